@@ -6,36 +6,36 @@ From Otto Require Import C17.Model C17.Spec C17.Proofs C17.ProofsClone.
 Import ListNotations.
 Open Scope Z_scope.
 
-Theorem clone_disjoint : forall bad h fuel roots n0 s,
+Theorem clone_disjoint : forall h fuel roots n0 s,
   (forall l, In l (keys h) -> l < n0) ->
-  clone_roots bad h fuel roots n0 = Ok s -> disjoint h (out s).
+  clone_roots h fuel roots n0 = Ok s -> disjoint h (out s).
 Proof.
-  intros bad h fuel roots n0 s Hlt H.
-  destruct (clone_roots_iso _ _ _ _ _ _ H) as (_ & _ & Hkv & Hrange & _).
+  intros h fuel roots n0 s Hlt H.
+  destruct (clone_roots_iso _ _ _ _ _ H) as (_ & _ & Hkv & Hrange & _).
   intros l Hl Hl'. apply Hkv in Hl'. apply Hrange in Hl'. specialize (Hlt l Hl). lia.
 Qed.
 
-Theorem clone_equivalent : forall bad h fuel roots n0 s q,
-  clone_roots bad h fuel roots n0 = Ok s ->
+Theorem clone_equivalent : forall h fuel roots n0 s q,
+  clone_roots h fuel roots n0 = Ok s ->
   observe (out s) (map (app_memo (memo s)) roots) q = observe h roots q.
 Proof.
-  intros bad h fuel roots n0 s q H.
-  destruct (clone_roots_iso _ _ _ _ _ _ H) as (Hiso & Hroots & _).
+  intros h fuel roots n0 s q H.
+  destruct (clone_roots_iso _ _ _ _ _ H) as (Hiso & Hroots & _).
   now apply iso_observational_equiv.
 Qed.
 
-Theorem clone_isolated : forall bad h fuel roots n0 s,
+Theorem clone_isolated : forall h fuel roots n0 s,
   (forall l, In l (keys h) -> l < n0) -> closed h (keys h) ->
-  clone_roots bad h fuel roots n0 = Ok s ->
+  clone_roots h fuel roots n0 = Ok s ->
   let store := h ++ out s in
   (forall ops, ops_ok store (keys h) ops ->
      forall rs q, incl rs (keys (out s)) -> observe (exec store ops) rs q = observe store rs q) /\
   (forall ops, ops_ok store (keys (out s)) ops ->
      forall rs q, incl rs (keys h) -> observe (exec store ops) rs q = observe store rs q).
 Proof.
-  intros bad h fuel roots n0 s Hlt Hcl H store.
-  pose proof (clone_disjoint _ _ _ _ _ _ Hlt H) as Hdis.
-  destruct (clone_roots_iso _ _ _ _ _ _ H) as (Hiso & _ & Hkv & _ & ND).
+  intros h fuel roots n0 s Hlt Hcl H store.
+  pose proof (clone_disjoint _ _ _ _ _ Hlt H) as Hdis.
+  destruct (clone_roots_iso _ _ _ _ _ H) as (Hiso & _ & Hkv & _ & ND).
   assert (Hcov : forall l', In l' (keys (out s)) -> In l' (vals (memo s))) by (intro; apply Hkv).
   destruct (copy_separated _ _ _ Hiso Hdis Hcl Hcov ND) as (C1 & C2 & O1 & O2 & S1 & S2).
   split; intros ops Hok rs q Hin.
@@ -43,20 +43,78 @@ Proof.
   - destruct (isolation ops _ _ _ O1 C1 S2 Hok) as (_ & _ & _ & _ & E). now apply E.
 Qed.
 
-(* ---- otto's deviations ---- *)
+(* ---- Copy() always returns: the cloner cannot fail on a heap without dangling pointers ---- *)
+Lemma clone_list_no_panic : forall (self : loc -> st -> res) ls,
+  (forall r, In r ls -> forall s, self r s <> Panic) ->
+  forall s, clone_list self ls s <> Panic.
+Proof.
+  intros self. induction ls as [|a ls IH]; intros Hs s; cbn [clone_list]; [discriminate|].
+  destruct (self a s) as [s1| |] eqn:E.
+  - apply IH. intros r Hr. apply Hs. now right.
+  - discriminate.
+  - exfalso. apply (Hs a (or_introl eq_refl) s E).
+Qed.
 
-(* a function stash without arguments object (parameter named `arguments`) held by a closure *)
+Lemma clone_loc_no_panic : forall h, closed h (keys h) ->
+  forall fuel l s, In l (keys h) -> clone_loc h fuel l s <> Panic.
+Proof.
+  intros h Hcl. induction fuel as [|n IH]; intros l s Hl; cbn [clone_loc]; [discriminate|].
+  unfold step. destruct (lookup (memo s) l); [discriminate|].
+  destruct (In_keys_lookup _ _ _ Hl) as [c Ec]. rewrite Ec.
+  match goal with |- context [clone_list ?f ?ls ?s0] =>
+    pose proof (clone_list_no_panic f ls) as Hnp; destruct (clone_list f ls s0) eqn:E end;
+    try discriminate.
+  exfalso. eapply Hnp; [|exact E]. intros r Hr s'. apply IH. eapply Hcl; eauto.
+Qed.
+
+Theorem clone_total : forall h fuel roots n0,
+  closed h (keys h) -> (forall r, In r roots -> In r (keys h)) -> (length h < fuel)%nat ->
+  exists s, clone_roots h fuel roots n0 = Ok s.
+Proof.
+  intros h fuel roots n0 Hcl Hroots Hf.
+  destruct (clone_roots h fuel roots n0) as [s| |] eqn:E; [eauto| |].
+  - exfalso. now apply (clone_roots_enough_fuel h fuel roots n0 Hf).
+  - exfalso. unfold clone_roots in E. revert E. apply clone_list_no_panic.
+    intros r Hr s. apply clone_loc_no_panic; auto.
+Qed.
+
+(* ---- the runtime record: every field, the eval intrinsic included, is the renamed original ---- *)
+Theorem clone_runtime_correct : forall h fuel rt n0 h' phi rt',
+  clone_runtime h fuel rt n0 = ROk h' phi rt' ->
+  iso h h' phi /\ rt' = rename_rt (app_memo phi) rt /\
+  In (rt_global rt) (keys phi) /\ (forall f, In f (rt_fields rt) -> In f (keys phi)) /\
+  In (rt_eval rt) (keys phi) /\
+  ((forall l, In l (keys h) -> l < n0) -> disjoint h h').
+Proof.
+  intros h fuel rt n0 h' phi rt' H. unfold clone_runtime in H.
+  destruct (clone_roots h fuel (rt_global rt :: rt_fields rt ++ [rt_eval rt]) n0) as [s| |] eqn:E;
+    try discriminate.
+  inversion H; subst h' phi rt'. clear H.
+  destruct (clone_roots_iso _ _ _ _ _ E) as (Hiso & Hroots & _).
+  split; [assumption|]. split; [reflexivity|]. split; [apply Hroots; now left|].
+  split; [intros f Hf; apply Hroots; right; apply in_or_app; now left|].
+  split; [apply Hroots; right; apply in_or_app; right; now left|].
+  intro Hlt. eapply clone_disjoint; eauto.
+Qed.
+
+Theorem clone_runtime_total : forall h fuel rt n0,
+  closed h (keys h) -> In (rt_global rt) (keys h) -> (forall f, In f (rt_fields rt) -> In f (keys h)) ->
+  In (rt_eval rt) (keys h) -> (length h < fuel)%nat ->
+  exists h' phi rt', clone_runtime h fuel rt n0 = ROk h' phi rt'.
+Proof.
+  intros h fuel rt n0 Hcl Hg Hf He Hfuel. unfold clone_runtime.
+  destruct (clone_total h fuel (rt_global rt :: rt_fields rt ++ [rt_eval rt]) n0 Hcl) as [s E]; [|assumption|].
+  - intros r [Hr | Hr]; [now subst|]. apply in_app_or in Hr as [Hr | [Hr | []]]; [now apply Hf | now subst].
+  - rewrite E. eauto.
+Qed.
+
+(* the heaps that used to make Copy() panic or mislay eval (regression witnesses):
+   a function stash without arguments object held by a closure; the global property
+   `eval` (name 7) rebound to a primitive and to another function *)
 Definition h_argparam : heap :=
   [(1, CObj (mkObj None [(7, PData (VRef 2) 7)] 1 true PNone));
    (2, CObj (mkObj None [] 2 true (PFun 5 (Some 3))));
    (3, CFn None [(9, VPrim 100 1, 4)] None [])].
-
-Theorem argparam_refuted :
-  exists h roots, clone_roots otto_bad h 10 roots 100 = Panic /\
-                  exists s, clone_roots no_bad h 10 roots 100 = Ok s.
-Proof. exists h_argparam, [1]. split; [vm_compute; reflexivity | eexists; vm_compute; reflexivity]. Qed.
-
-(* the global property `eval` (name 7) rebound: to a primitive, and to another function *)
 Definition h_evalgone : heap :=
   [(1, CObj (mkObj None [(7, PData (VPrim 100 1) 7)] 1 true PNone));
    (2, CObj (mkObj None [] 2 true (PNative 1)))].
@@ -64,23 +122,6 @@ Definition h_evalswap : heap :=
   [(1, CObj (mkObj None [(7, PData (VRef 3) 7); (8, PData (VRef 2) 7)] 1 true PNone));
    (2, CObj (mkObj None [] 2 true (PNative 1)));
    (3, CObj (mkObj None [] 2 true (PNative 2)))].
-
-Theorem evalgone_refuted :
-  exists h rt, clone_runtime_otto 7 h 10 rt 100 = RPanic /\
-               exists h' phi rt', clone_runtime_spec h 10 rt 100 = ROk h' phi rt'.
-Proof.
-  exists h_evalgone, (mkRt 1 [] 2). split; [vm_compute; reflexivity | do 3 eexists; vm_compute; reflexivity].
-Qed.
-
-Theorem evalswap_refuted :
-  exists h rt h1 phi1 rt1 h2 phi2 rt2,
-    clone_runtime_otto 7 h 10 rt 100 = ROk h1 phi1 rt1 /\
-    clone_runtime_spec h 10 rt 100 = ROk h2 phi2 rt2 /\
-    rt_eval rt1 <> app_memo phi1 (rt_eval rt) /\ rt_eval rt2 = app_memo phi2 (rt_eval rt).
-Proof.
-  exists h_evalswap, (mkRt 1 [] 2). do 6 eexists.
-  split; [vm_compute; reflexivity|]. split; [vm_compute; reflexivity|]. split; [vm_compute; discriminate | vm_compute; reflexivity].
-Qed.
 
 (* ---- copies of copies: isomorphisms compose ---- *)
 Definition compose (phi psi : list (loc * loc)) : list (loc * loc) :=
